@@ -520,6 +520,27 @@ def c14(tier, seed):
                      "arena; afterwards a request for the whole arena and then exactly block_count single-block segments must be allocatable; non-trivial = >=10 claims; distinct = schedule hash",
                      lambda r, c: r.get("mt", {}).get("claims", 0) >= 10, {"claims_by_number_of_blocks_1_to_7": by_len})
 
+@check("C15")
+def c15(tier, seed):
+    t0 = time.time(); prop = "C15"
+    variants = ["rel", "dbg", "sec"]
+    cases = seq_cases(prop, "arena", variants, tier_n(tier, 16, 200), tier_n(tier, 2500, 6000), seed)
+    # with reclaim-on-free (frees of blocks of terminated threads may adopt their segments)
+    cases += seq_cases(prop, "arena", ["rel", "dbg"], tier_n(tier, 8, 100), tier_n(tier, 2500, 6000), seed, env={"MIMALLOC_ABANDONED_RECLAIM_ON_FREE": "1"}, label_prefix="rof-", start_index=30000)
+    cases += seq_cases(prop, "arena", ["rel"], tier_n(tier, 4, 50), tier_n(tier, 2500, 6000), seed, env={"MIMALLOC_TARGET_SEGMENTS_PER_THREAD": "2", "MIMALLOC_VISIT_ABANDONED": "1"}, extra_args=["--abandon-ok", 1], label_prefix="tgt-", start_index=40000)
+    v = Verdict(prop)
+    for c in core.run_cases(cases): v.add(c)
+    cov = seq_cov(cases)
+    cov["arena"] = {k: x for k, x in core.merge_counts(cases, "arena").items()}
+    cov["geometry_samples"] = [(c.result or {}).get("arena", {}).get("geometry") for c in cases[:3]]
+    return finish(prop, tier, seed, "exploration", v, cases, t0,
+                  "a case = 1-3 arenas created with mi_manage_os_memory_ex over harness-reserved regions of awkward geometry (start = 32MiB-aligned base + k*4KiB, odd sizes, committed with canary zones or "
+                  "PROT_NONE around), heaps bound to them, interleaved allocations of the same size classes from bound heaps and from default/other heaps, bound heaps filled until they refuse, threads with "
+                  "their own bound heaps that terminate with live blocks inside the arena (abandoned segments adopted later, forced collects, reclaim-on-free, forced abandonment); every returned pointer is "
+                  "range-checked: bound heap => inside its arena, other heap => outside every exclusive arena; mi_arena_area inside the region given; canaries intact; non-trivial = >=50 bound and >=50 other "
+                  "allocations checked and >=1 thread exit inside an arena; distinct = (variant, op-list hash)",
+                  lambda r, c: r.get("arena", {}).get("inside_checks", 0) >= 50 and r.get("arena", {}).get("outside_checks", 0) >= 50 and r.get("arena", {}).get("threads", 0) >= 1, cov, SEQ_ASSUME)
+
 # ---- C13: pairwise covering array over the commit / purge / arena options --------------------------------------------
 OPTION_DOMAINS = [
     ("MIMALLOC_PURGE_DELAY", ["-1", "0", "1", "10"]),
